@@ -213,17 +213,22 @@ CLAIMED = {
    technique="Lean 4 theorems over a full executable codec model + differential with read-back oracle",
    design='7/C19'),
  'C20': dict(
-   text=("Proof (Lean 4) for the round-robin scheduler model (writeQueue, Consume, ring) and the random scheduler as an arbitrary choice "
+   text=("Proof (Lean 4). Round-robin scheduler model (writeQueue, Consume, ring) and the random scheduler as an arbitrary choice "
          "among ready streams: control frames first (control_first_*), every released DATA piece within stream window, connection "
          "window and max frame size with the connection window charged exactly (respects_windows_rr, consume_spec), split pieces "
-         "add up (pieces_concatenate), Pop reports nothing only when nothing is sendable (pop_none_iff_rr), and for EVERY sequence of "
-         "open/close/push/pop/window operations frames and DATA bytes pushed = handed out + queued + discarded by close "
-         "(conservation_rr, by invariant). Model tied to the real schedulers by an exact differential (random: the model follows "
-         "the implementation's admissible choice)"),
-   note=("PARTIAL: the priority scheduler (tree maintenance, D7 idle->open eviction) is not yet covered by theorems; stream order is "
-         "given by the FIFO step lemmas (push appends, pop takes the head), not yet as a trace theorem. Trusted: Lean kernel + "
-         "standard axioms; harness"),
-   technique="Lean 4 invariant proof over operation sequences + exact differential through package-internal access",
+         "add up (pieces_concatenate), Pop reports nothing only when nothing is sendable (pop_none_iff_rr), and for EVERY sequence "
+         "of open/close/push/pop/window operations frames and DATA bytes pushed = handed out + queued + discarded by close "
+         "(conservation_rr, by invariant). Priority scheduler: a pointer-level model (heap, map, parent pointers, sibling order, "
+         "retention lists, throttling, re-sorting) with the theorem that for EVERY operation sequence, configuration and "
+         "comparator the dependency structure stays a tree rooted at stream 0: every known stream has a finite parent chain "
+         "ending at the root and no stream is its own transitive dependency (tree_rooted, no_cycle; representation invariant "
+         "TreeInv preserved by OpenStream, CloseStream, AdjustStream incl. self-, circular and exclusive dependencies, "
+         "evictions, Pop's re-sorting; depth bound by pigeonhole). All three models are tied to the real schedulers by exact "
+         "differentials; for the priority scheduler the whole final structure incl. sibling order is compared"),
+   note=("PARTIAL: conservation / window theorems are proved for round robin (and per-step for Consume); for the priority scheduler "
+         "they are decided by the differential, the tree clause by theorem. sort.Sort is modelled as insertion sort (<= 12 siblings). "
+         "Found and fixed D7. Trusted: Lean kernel + standard axioms; harness"),
+   technique="Lean 4 invariant proofs over operation sequences (ring conservation, priority-tree invariant) + exact differentials through package-internal access",
    design='7/C20'),
 }
 ALL = [f'C{i:02d}' for i in range(1, 21)]
